@@ -1055,7 +1055,9 @@ class ParseUniq:
         if inner:
             # <ref>* not an item</ref>
             children = parse_txt("<br />" + inner, xopts)
-            if children[0].children:  # paragraph had been created...
+            if not children:  # (nested too deeply: see parse_txt)
+                pass
+            elif children[0].children:  # paragraph had been created...
                 del children[0].children[0]
             else:
                 del children[0]
